@@ -1,8 +1,665 @@
-//! C07 — generator and driver of the real API.
+//! C07 — interval trees and the annotation map.
+//!
+//! One line = one operation history on one object:  `<kind> <op>/<op>/…`
+//!
+//! kinds and their operations (all keys `i64`, data `i64`; every interval and every query has start < end,
+//! anything else is "not a case" — zero/negative width is outside the property):
+//!   avl      IntervalTree<i64,i64>            ins:s:e:d  find:s:e  findmut:s:e:delta  dump
+//!   arr      ArrayBackedIntervalTree<i64,i64> ins:s:e:d  index  find:s:e  findinto:s:e
+//!   arrfi    the same, but the leading run of `ins` is fed through `from_iter` (which indexes)
+//!   amap     AnnotMap<String,i64>             ins:r:s:e:d  find:r:s:e          (r = small integer → refid "r<r>")
+//!   amaploc  AnnotMap<String,Contig>          ins:r:s:e:d  find:r:s:e          (`insert_loc`; d ∈ {0,1} = strand)
+//!
+//! Observation: one segment per observing operation (find, findmut, findinto, dump), joined by `/`:
+//!   find…    `s:e:d,s:e:d,…` in the order the implementation returned them (`-` when empty); for `findmut`
+//!            d is the value seen *before* `delta` was added through the mutable iterator;
+//!            `PANIC:<class>` when that single call panicked (expected for a query on an un-indexed array tree)
+//!   dump     `depth:start:end:max:height:c,…` pre-order, c = has_left + 2·has_right (`-` for the empty tree)
 use crate::util::*;
+use bio::data_structures::annot_map::AnnotMap;
+use bio::data_structures::interval_tree::{ArrayBackedIntervalTree, IntervalTree};
+use bio_types::annot::contig::Contig;
+use bio_types::strand::ReqStrand;
+use std::iter::FromIterator;
+use std::panic::{catch_unwind, AssertUnwindSafe};
 
-pub fn gen(_tier: &str, _rng: &mut Rng, _out: &mut Vec<String>) {}
+// ------------------------------------------------------------------------------------------------ exec
 
-pub fn exec(_toks: &[&str]) -> Result<String, String> {
-    Err("unimplemented".into())
+#[derive(Clone, Debug)]
+enum Op {
+    Ins(i64, i64, i64, i64), // refid (0 for the trees), s, e, d
+    Find(i64, i64, i64),     // refid, s, e
+    FindMut(i64, i64, i64),  // s, e, delta
+    FindInto(i64, i64),
+    Index,
+    Dump,
+}
+
+fn nums(parts: &[&str]) -> Result<Vec<i64>, String> {
+    parts.iter().map(|p| parse::<i64>(p)).collect()
+}
+
+const LIM: i64 = 1_000_000_000_000;
+
+fn parse_op(kind: &str, s: &str) -> Result<Op, String> {
+    let p: Vec<&str> = s.split(':').collect();
+    let amap = kind == "amap" || kind == "amaploc";
+    let v = nums(&p[1..])?;
+    if v.iter().any(|x| x.abs() > LIM) {
+        return Err("number out of range".into());
+    }
+    let pos = |s: i64, e: i64| if s < e { Ok(()) } else { Err("non-positive width".to_string()) };
+    match (p[0], v.len()) {
+        ("ins", 3) if !amap => {
+            pos(v[0], v[1])?;
+            Ok(Op::Ins(0, v[0], v[1], v[2]))
+        }
+        ("ins", 4) if amap => {
+            pos(v[1], v[2])?;
+            if v[0] < 0 || v[0] > 9 {
+                return Err("refid".into());
+            }
+            if kind == "amaploc" && !(v[3] == 0 || v[3] == 1) {
+                return Err("strand".into());
+            }
+            Ok(Op::Ins(v[0], v[1], v[2], v[3]))
+        }
+        ("find", 2) if !amap => {
+            pos(v[0], v[1])?;
+            Ok(Op::Find(0, v[0], v[1]))
+        }
+        ("find", 3) if amap => {
+            pos(v[1], v[2])?;
+            if v[0] < 0 || v[0] > 9 {
+                return Err("refid".into());
+            }
+            Ok(Op::Find(v[0], v[1], v[2]))
+        }
+        ("findmut", 3) if kind == "avl" => {
+            pos(v[0], v[1])?;
+            Ok(Op::FindMut(v[0], v[1], v[2]))
+        }
+        ("findinto", 2) if kind == "arr" || kind == "arrfi" => {
+            pos(v[0], v[1])?;
+            Ok(Op::FindInto(v[0], v[1]))
+        }
+        ("index", 0) if kind == "arr" || kind == "arrfi" => Ok(Op::Index),
+        ("dump", 0) if kind == "avl" => Ok(Op::Dump),
+        _ => Err(format!("bad op {}", s)),
+    }
+}
+
+fn panic_class(e: &(dyn std::any::Any + Send)) -> String {
+    let msg = if let Some(s) = e.downcast_ref::<&str>() {
+        s.to_string()
+    } else if let Some(s) = e.downcast_ref::<String>() {
+        s.clone()
+    } else {
+        "unknown".to_string()
+    };
+    let mut m: String =
+        msg.chars().map(|c| if c.is_ascii_alphanumeric() { c.to_ascii_lowercase() } else { '-' }).collect();
+    while m.contains("--") {
+        m = m.replace("--", "-");
+    }
+    m.truncate(60);
+    m
+}
+
+fn show(items: &[(i64, i64, i64)]) -> String {
+    if items.is_empty() {
+        return "-".into();
+    }
+    items.iter().map(|(s, e, d)| format!("{}:{}:{}", s, e, d)).collect::<Vec<_>>().join(",")
+}
+
+fn exec_avl(ops: &[Op]) -> Vec<String> {
+    let mut t: IntervalTree<i64, i64> = IntervalTree::new();
+    let mut out = vec![];
+    for op in ops {
+        match *op {
+            Op::Ins(_, s, e, d) => t.insert(s..e, d),
+            Op::Find(_, s, e) => {
+                let r: Vec<(i64, i64, i64)> =
+                    t.find(s..e).map(|x| (x.interval().start, x.interval().end, *x.data())).collect();
+                out.push(show(&r));
+            }
+            Op::FindMut(s, e, delta) => {
+                let mut r = vec![];
+                for mut x in t.find_mut(s..e) {
+                    let (a, b) = (x.interval().start, x.interval().end);
+                    let d = x.data();
+                    r.push((a, b, *d));
+                    *d += delta;
+                }
+                out.push(show(&r));
+            }
+            Op::Dump => {
+                let d = t.verif_dump();
+                if d.is_empty() {
+                    out.push("-".into());
+                } else {
+                    out.push(
+                        d.iter()
+                            .map(|(depth, s, e, m, h, l, r)| {
+                                format!("{}:{}:{}:{}:{}:{}", depth, s, e, m, h, (*l as u8) + 2 * (*r as u8))
+                            })
+                            .collect::<Vec<_>>()
+                            .join(","),
+                    );
+                }
+            }
+            _ => unreachable!(),
+        }
+    }
+    out
+}
+
+fn exec_arr(ops: &[Op], from_iter: bool) -> Vec<String> {
+    let mut start = 0;
+    let mut t: ArrayBackedIntervalTree<i64, i64> = if from_iter {
+        while start < ops.len() && matches!(ops[start], Op::Ins(..)) {
+            start += 1;
+        }
+        ArrayBackedIntervalTree::from_iter(ops[..start].iter().map(|o| match *o {
+            Op::Ins(_, s, e, d) => (s..e, d),
+            _ => unreachable!(),
+        }))
+    } else {
+        ArrayBackedIntervalTree::new()
+    };
+    let mut out = vec![];
+    // the reusable buffer of `find_into` borrows the tree, so each call gets a buffer pre-filled with junk
+    // taken from a scratch tree of the same lifetime class: simplest faithful use is a fresh non-empty Vec
+    for op in &ops[start..] {
+        match *op {
+            Op::Ins(_, s, e, d) => t.insert(s..e, d),
+            Op::Index => t.index(),
+            Op::Find(_, s, e) => {
+                let r = catch_unwind(AssertUnwindSafe(|| {
+                    t.find(s..e)
+                        .iter()
+                        .map(|x| (x.interval().start, x.interval().end, *x.data()))
+                        .collect::<Vec<_>>()
+                }));
+                out.push(match r {
+                    Ok(v) => show(&v),
+                    Err(e) => format!("PANIC:{}", panic_class(&*e)),
+                });
+            }
+            Op::FindInto(s, e) => {
+                let r = catch_unwind(AssertUnwindSafe(|| {
+                    let mut buf = Vec::new();
+                    // first call fills the buffer with everything, second call must replace its content
+                    t.find_into(i64::MIN / 2..i64::MAX / 2, &mut buf);
+                    t.find_into(s..e, &mut buf);
+                    buf.iter().map(|x| (x.interval().start, x.interval().end, *x.data())).collect::<Vec<_>>()
+                }));
+                out.push(match r {
+                    Ok(v) => show(&v),
+                    Err(e) => format!("PANIC:{}", panic_class(&*e)),
+                });
+            }
+            _ => unreachable!(),
+        }
+    }
+    out
+}
+
+fn refname(r: i64) -> String {
+    format!("r{}", r)
+}
+
+fn exec_amap(ops: &[Op]) -> Vec<String> {
+    let mut m: AnnotMap<String, i64> = AnnotMap::new();
+    let mut out = vec![];
+    for op in ops {
+        match *op {
+            Op::Ins(r, s, e, d) => {
+                m.insert_at(d, &Contig::new(refname(r), s as isize, (e - s) as usize, ReqStrand::Forward))
+            }
+            Op::Find(r, s, e) => {
+                let q = Contig::new(refname(r), s as isize, (e - s) as usize, ReqStrand::Forward);
+                let want = refname(r);
+                let mut v = vec![];
+                for x in m.find(&q) {
+                    if x.refid() != &want {
+                        // the entry claims another reference id: make it visible as an impossible entry
+                        v.push((i64::MIN, i64::MIN, 0));
+                    } else {
+                        v.push((x.interval().start as i64, x.interval().end as i64, *x.data()));
+                    }
+                }
+                out.push(show(&v));
+            }
+            _ => unreachable!(),
+        }
+    }
+    out
+}
+
+fn exec_amaploc(ops: &[Op]) -> Vec<String> {
+    use bio_types::annot::loc::Loc;
+    let mut m: AnnotMap<String, Contig<String, ReqStrand>> = AnnotMap::new();
+    let mut out = vec![];
+    for op in ops {
+        match *op {
+            Op::Ins(r, s, e, d) => {
+                let st = if d == 0 { ReqStrand::Forward } else { ReqStrand::Reverse };
+                m.insert_loc(Contig::new(refname(r), s as isize, (e - s) as usize, st))
+            }
+            Op::Find(r, s, e) => {
+                let q = Contig::new(refname(r), s as isize, (e - s) as usize, ReqStrand::Forward);
+                let want = refname(r);
+                let mut v = vec![];
+                for x in m.find(&q) {
+                    let c = x.data();
+                    let iv = x.interval();
+                    // the stored location must agree with the interval it is filed under
+                    if x.refid() != &want
+                        || c.refid() != &want
+                        || c.start() != iv.start
+                        || c.start() + c.length() as isize != iv.end
+                    {
+                        v.push((i64::MIN, i64::MIN, 0));
+                    } else {
+                        let d = if c.strand() == ReqStrand::Forward { 0 } else { 1 };
+                        v.push((iv.start as i64, iv.end as i64, d));
+                    }
+                }
+                out.push(show(&v));
+            }
+            _ => unreachable!(),
+        }
+    }
+    out
+}
+
+pub fn exec(toks: &[&str]) -> Result<String, String> {
+    if toks.len() != 2 {
+        return Err("arity".into());
+    }
+    let kind = toks[0];
+    if !["avl", "arr", "arrfi", "amap", "amaploc"].contains(&kind) {
+        return Err("kind".into());
+    }
+    let ops: Vec<Op> = split_list(toks[1], '/').into_iter().map(|s| parse_op(kind, s)).collect::<Result<_, _>>()?;
+    let segs = match kind {
+        "avl" => exec_avl(&ops),
+        "arr" => exec_arr(&ops, false),
+        "arrfi" => exec_arr(&ops, true),
+        "amap" => exec_amap(&ops),
+        _ => exec_amaploc(&ops),
+    };
+    Ok(if segs.is_empty() { "none".to_string() } else { segs.join("/") })
+}
+
+// ------------------------------------------------------------------------------------------------ gen
+
+/// insertion patterns: a list of (start, end)
+fn pattern(rng: &mut Rng, n: usize) -> Vec<(i64, i64)> {
+    let base = *rng.pick(&[0i64, 0, 0, -7, 100, -1000]);
+    let wmax = *rng.pick(&[1i64, 2, 3, 6, 12, 40]);
+    let mut v: Vec<(i64, i64)> = Vec::with_capacity(n);
+    let kind = rng.below(12);
+    match kind {
+        // random starts from a small range: many equal starts, duplicates
+        0 | 1 | 2 => {
+            let r = *rng.pick(&[1usize, 2, 4, 8, 20, 60]);
+            for _ in 0..n {
+                let s = base + rng.below(r) as i64;
+                v.push((s, s + 1 + rng.below(wmax as usize) as i64));
+            }
+        }
+        // ascending / descending starts (single rotations all the way), steps 0..2
+        3 | 4 => {
+            let mut s = base;
+            let stepmax = 1 + rng.below(3);
+            for _ in 0..n {
+                v.push((s, s + 1 + rng.below(wmax as usize) as i64));
+                s += rng.below(stepmax) as i64 + if stepmax == 1 { 1 } else { 0 };
+            }
+            if kind == 4 {
+                v.reverse();
+            }
+        }
+        // zig-zag from both ends towards the middle (double rotations)
+        5 => {
+            let (mut lo, mut hi) = (base, base + n as i64);
+            for i in 0..n {
+                let s = if i % 2 == 0 {
+                    lo += 1;
+                    lo
+                } else {
+                    hi -= 1;
+                    hi
+                };
+                v.push((s, s + 1 + rng.below(wmax as usize) as i64));
+            }
+        }
+        // inside-out from the middle (the other double-rotation orientation)
+        6 => {
+            let mid = base + n as i64 / 2;
+            for i in 0..n {
+                let off = (i as i64 + 1) / 2;
+                let s = if i % 2 == 0 { mid + off } else { mid - off };
+                v.push((s, s + 1 + rng.below(wmax as usize) as i64));
+            }
+        }
+        // pairs (a, a+gap, a+1, a+gap+1 …) and blocks shuffled: left-right / right-left cases deep in the tree
+        7 => {
+            let blocks = 1 + rng.below(6);
+            let per = n / blocks + 1;
+            let mut order: Vec<usize> = (0..blocks).collect();
+            for i in (1..blocks).rev() {
+                order.swap(i, rng.below(i + 1));
+            }
+            'outer: for b in order {
+                let up = rng.chance(1, 2);
+                for j in 0..per {
+                    if v.len() >= n {
+                        break 'outer;
+                    }
+                    let off = if up { j } else { per - 1 - j } as i64;
+                    let s = base + (b * per) as i64 + off;
+                    v.push((s, s + 1 + rng.below(wmax as usize) as i64));
+                }
+            }
+        }
+        // all starts equal (always goes left), ends vary
+        8 => {
+            for _ in 0..n {
+                v.push((base, base + 1 + rng.below(3 * wmax as usize) as i64));
+            }
+        }
+        // nested intervals, long first or short first
+        9 => {
+            let long_first = rng.chance(1, 2);
+            for i in 0..n {
+                let k = if long_first { i } else { n - 1 - i } as i64;
+                v.push((base + k, base + 2 * n as i64 - k));
+            }
+        }
+        // random permutation of distinct starts
+        _ => {
+            let mut ss: Vec<i64> = (0..n as i64).map(|i| base + i).collect();
+            for i in (1..n).rev() {
+                ss.swap(i, rng.below(i + 1));
+            }
+            for s in ss {
+                v.push((s, s + 1 + rng.below(wmax as usize) as i64));
+            }
+        }
+    }
+    // a few giants: their end has to survive in `max` along the whole path whatever rotations follow
+    if n > 0 && rng.chance(2, 3) {
+        for _ in 0..1 + rng.below(3) {
+            let i = match rng.below(4) {
+                0 => 0,
+                1 => n - 1,
+                _ => rng.below(n),
+            };
+            let far = v.iter().map(|x| x.1).max().unwrap();
+            v[i].1 = far + 1 + rng.below(5) as i64 + if rng.chance(1, 3) { 50 } else { 0 };
+        }
+    }
+    v
+}
+
+fn data_for(rng: &mut Rng, i: usize) -> i64 {
+    match rng.below(4) {
+        0 => 0,
+        1 => rng.below(3) as i64,
+        _ => i as i64,
+    }
+}
+
+/// a query aimed at the stored intervals `cur` (positive width always)
+fn query(rng: &mut Rng, cur: &[(i64, i64)]) -> (i64, i64) {
+    if cur.is_empty() {
+        let s = rng.range(-3, 3);
+        return (s, s + 1 + rng.below(4) as i64);
+    }
+    let lo = cur.iter().map(|x| x.0).min().unwrap();
+    let hi = cur.iter().map(|x| x.1).max().unwrap();
+    let e = *rng.pick(cur);
+    match rng.below(16) {
+        0 | 1 => (e.1 - 1, e.1),     // last cell of an entry
+        2 => (e.1, e.1 + 1),         // touching its end: must not report it
+        3 => (e.1 - 1, e.1 + 2),
+        4 | 5 => (e.0, e.0 + 1),     // first cell
+        6 => (e.0 - 1, e.0),         // touching its start
+        7 => (e.0 - 2, e.0 + 1),
+        8 => e,                      // identical
+        9 => (lo - 1, hi + 1),       // everything
+        10 => (lo - 5, lo),          // left of everything (touching)
+        11 => (hi, hi + 3),          // right of everything (touching)
+        12 => (hi - 1, hi),          // last cell of the farthest-reaching entry
+        _ => {
+            let s = rng.range(lo - 1, hi);
+            let wm = *rng.pick(&[1usize, 2, 5, 20]);
+            let w = 1 + rng.below(wm);
+            (s, s + w as i64)
+        }
+    }
+}
+
+fn size_class(rng: &mut Rng, tier: &str) -> usize {
+    let _ = tier;
+    match rng.below(20) {
+        0..=10 => 1 + rng.below(30),
+        11..=16 => 30 + rng.below(70),
+        17 | 18 => 100 + rng.below(100),
+        _ => 200 + rng.below(101),
+    }
+}
+
+fn gen_avl(rng: &mut Rng, tier: &str) -> String {
+    let n = size_class(rng, tier);
+    let ivs = pattern(rng, n);
+    let batch = if n <= 30 { 1 + rng.below(2) } else if n <= 100 { 3 + rng.below(8) } else { 15 + rng.below(30) };
+    let nq = if n <= 30 { 1 + rng.below(3) } else { 3 + rng.below(6) };
+    let mut ops: Vec<String> = vec![];
+    let mut cur: Vec<(i64, i64)> = vec![];
+    if rng.chance(1, 8) {
+        ops.push("dump".into());
+        let q = query(rng, &cur);
+        ops.push(format!("find:{}:{}", q.0, q.1));
+    }
+    for (i, iv) in ivs.iter().enumerate() {
+        ops.push(format!("ins:{}:{}:{}", iv.0, iv.1, data_for(rng, i)));
+        cur.push(*iv);
+        if (i + 1) % batch == 0 || i + 1 == n {
+            ops.push("dump".into());
+            for _ in 0..nq {
+                let q = query(rng, &cur);
+                if rng.chance(1, 4) {
+                    ops.push(format!("findmut:{}:{}:{}", q.0, q.1, 1 + rng.below(1000) as i64 * 1000));
+                } else {
+                    ops.push(format!("find:{}:{}", q.0, q.1));
+                }
+            }
+        }
+    }
+    // closing sweep: every stored end and start gets a one-cell probe on large trees now and then
+    if rng.chance(1, 3) {
+        let mut pts: Vec<i64> = cur.iter().flat_map(|x| [x.0, x.1 - 1]).collect();
+        pts.sort();
+        pts.dedup();
+        for p in pts.iter().take(80) {
+            ops.push(format!("find:{}:{}", p, p + 1));
+        }
+    }
+    format!("avl {}", ops.join("/"))
+}
+
+const ARR_SIZES: [usize; 34] = [
+    0, 1, 2, 3, 4, 5, 6, 7, 8, 9, 15, 16, 17, 18, 23, 24, 31, 32, 33, 40, 47, 48, 63, 64, 65, 100, 127, 128, 129, 200,
+    255, 256, 257, 300,
+];
+
+fn gen_arr(rng: &mut Rng, _tier: &str) -> String {
+    let fi = rng.chance(1, 5);
+    let n = if rng.chance(2, 3) { *rng.pick(&ARR_SIZES) } else { rng.below(301) };
+    let phases = 1 + rng.below(3);
+    let ivs = pattern(rng, n);
+    // split the inserts over the phases (the first phase gets most)
+    let mut cuts: Vec<usize> = (0..phases - 1).map(|_| n - rng.below(n / 3 + 1)).collect();
+    cuts.push(n);
+    cuts.sort();
+    let mut ops: Vec<String> = vec![];
+    let mut cur: Vec<(i64, i64)> = vec![];
+    let mut done = 0;
+    for (pi, &c) in cuts.iter().enumerate() {
+        for i in done..c {
+            ops.push(format!("ins:{}:{}:{}", ivs[i].0, ivs[i].1, data_for(rng, i)));
+            cur.push(ivs[i]);
+        }
+        let inserted = c > done;
+        done = c;
+        // query before (re-)indexing: must be refused (also on the empty tree, also after further inserts)
+        let skip_first_for_fi = fi && pi == 0;
+        if !skip_first_for_fi && (inserted || pi == 0) && rng.chance(1, 2) {
+            let q = query(rng, &cur);
+            ops.push(format!("{}:{}:{}", if rng.chance(1, 3) { "findinto" } else { "find" }, q.0, q.1));
+        }
+        if !(skip_first_for_fi && rng.chance(1, 2)) {
+            ops.push("index".into());
+        }
+        if rng.chance(1, 6) {
+            ops.push("index".into());
+        }
+        let nq = if n <= 20 { 2 + rng.below(6) } else { 8 + rng.below(30) };
+        for _ in 0..nq {
+            let q = query(rng, &cur);
+            ops.push(format!("{}:{}:{}", if rng.chance(1, 5) { "findinto" } else { "find" }, q.0, q.1));
+        }
+        if pi + 1 == cuts.len() && rng.chance(1, 3) {
+            let mut pts: Vec<i64> = cur.iter().flat_map(|x| [x.0, x.1 - 1]).collect();
+            pts.sort();
+            pts.dedup();
+            // probes from the far end first: the imaginary right spine is where the index arithmetic is delicate
+            for p in pts.iter().rev().take(60) {
+                ops.push(format!("find:{}:{}", p, p + 1));
+            }
+        }
+    }
+    format!("{} {}", if fi { "arrfi" } else { "arr" }, ops.join("/"))
+}
+
+fn gen_amap(rng: &mut Rng, _tier: &str) -> String {
+    let loc = rng.chance(1, 4);
+    let nref = 1 + rng.below(3);
+    let mut refs: Vec<i64> = (0..4).collect();
+    for i in (1..4).rev() {
+        refs.swap(i, rng.below(i + 1));
+    }
+    let used = &refs[..nref];
+    let nmax = if rng.chance(1, 5) { 120 } else { 30 };
+    let n = 1 + rng.below(nmax);
+    let ivs = pattern(rng, n);
+    let mut ops: Vec<String> = vec![];
+    let mut cur: Vec<(i64, i64)> = vec![];
+    if rng.chance(1, 6) {
+        ops.push(format!("find:{}:0:5", refs[0]));
+    }
+    let batch = 1 + rng.below(8);
+    for (i, iv) in ivs.iter().enumerate() {
+        let r = *rng.pick(used);
+        let d = if loc { rng.below(2) as i64 } else { data_for(rng, i) };
+        ops.push(format!("ins:{}:{}:{}:{}", r, iv.0, iv.1, d));
+        cur.push(*iv);
+        if (i + 1) % batch == 0 || i + 1 == n {
+            for _ in 0..1 + rng.below(4) {
+                let q = query(rng, &cur);
+                // every reference id, present or absent
+                let r = refs[rng.below(4)];
+                ops.push(format!("find:{}:{}:{}", r, q.0, q.1));
+            }
+        }
+    }
+    format!("{} {}", if loc { "amaploc" } else { "amap" }, ops.join("/"))
+}
+
+fn permutations(n: usize) -> Vec<Vec<usize>> {
+    fn rec(cur: &mut Vec<usize>, used: &mut Vec<bool>, n: usize, out: &mut Vec<Vec<usize>>) {
+        if cur.len() == n {
+            out.push(cur.clone());
+            return;
+        }
+        for i in 0..n {
+            if !used[i] {
+                used[i] = true;
+                cur.push(i);
+                rec(cur, used, n, out);
+                cur.pop();
+                used[i] = false;
+            }
+        }
+    }
+    let mut out = vec![];
+    rec(&mut vec![], &mut vec![false; n], n, &mut out);
+    out
+}
+
+fn exhaustive(out: &mut Vec<String>) {
+    // all insertion orders of 7 distinct intervals: every shape an AVL tree of 7 keys can take on the way
+    let base: [(i64, i64); 7] = [(0, 3), (1, 2), (2, 9), (3, 4), (4, 6), (5, 6), (6, 8)];
+    let queries: Vec<(i64, i64)> = (0..9).map(|p| (p, p + 1)).chain([(0, 9), (2, 5), (8, 9), (-1, 0)]).collect();
+    let qs = |name: &str| queries.iter().map(|q| format!("{}:{}:{}", name, q.0, q.1)).collect::<Vec<_>>().join("/");
+    for p in permutations(7) {
+        let ins: Vec<String> =
+            p.iter().enumerate().map(|(i, &k)| format!("ins:{}:{}:{}", base[k].0, base[k].1, i)).collect();
+        let avl: Vec<String> = ins.iter().map(|s| format!("{}/dump", s)).collect();
+        out.push(format!("avl {}/{}", avl.join("/"), qs("find")));
+        out.push(format!("arr {}/index/{}", ins.join("/"), qs("find")));
+    }
+    // all multisets of ≤ 5 intervals over the points 0..4, inserted in sorted and in reverse order
+    let ivs: Vec<(i64, i64)> = (0..4).flat_map(|s| (s + 1..=4).map(move |e| (s, e))).collect();
+    let q4: Vec<(i64, i64)> = ivs.clone();
+    let qs4 = |name: &str| q4.iter().map(|q| format!("{}:{}:{}", name, q.0, q.1)).collect::<Vec<_>>().join("/");
+    fn multisets(k: usize, from: usize, n: usize, cur: &mut Vec<usize>, out: &mut Vec<Vec<usize>>) {
+        out.push(cur.clone());
+        if k == 0 {
+            return;
+        }
+        for i in from..n {
+            cur.push(i);
+            multisets(k - 1, i, n, cur, out);
+            cur.pop();
+        }
+    }
+    let mut ms = vec![];
+    multisets(5, 0, ivs.len(), &mut vec![], &mut ms);
+    for m in ms {
+        if m.is_empty() {
+            continue;
+        }
+        for rev in [false, true] {
+            let mut order = m.clone();
+            if rev {
+                order.reverse();
+            }
+            let ins: Vec<String> =
+                order.iter().enumerate().map(|(i, &k)| format!("ins:{}:{}:{}", ivs[k].0, ivs[k].1, i % 2)).collect();
+            out.push(format!("avl {}/dump/{}", ins.join("/"), qs4("find")));
+            if !rev {
+                out.push(format!("arr {}/index/{}", ins.join("/"), qs4("find")));
+            }
+        }
+    }
+}
+
+pub fn gen(tier: &str, rng: &mut Rng, out: &mut Vec<String>) {
+    let n = if tier == "thorough" { 20_000 } else { 4_000 };
+    for i in 0..n {
+        out.push(match i % 10 {
+            0..=4 => gen_avl(rng, tier),
+            5..=8 => gen_arr(rng, tier),
+            _ => gen_amap(rng, tier),
+        });
+    }
+    if tier == "thorough" {
+        exhaustive(out);
+    }
 }
